@@ -1274,7 +1274,15 @@ func vfGenAnyInput(t *rapid.T) []byte {
 		if rapid.Bool().Draw(t, "widetextish") {
 			doc = vfGenTextish(t)
 		}
-		return vfEncodeWide(doc, rapid.SampledFrom([]int{2, 2, 2, 4}).Draw(t, "width"), rapid.Bool().Draw(t, "be"))
+		w := vfEncodeWide(doc, rapid.SampledFrom([]int{2, 2, 2, 4}).Draw(t, "width"), rapid.Bool().Draw(t, "be"))
+		if rapid.IntRange(0, 3).Draw(t, "nobom") == 0 {
+			// the same text without its byte-order mark: every other byte is NUL, nothing announces it
+			if len(w) >= 4 && (w[2] == 0 && w[3] == 0 || w[0] == 0 && w[1] == 0) {
+				return w[4:]
+			}
+			return w[2:]
+		}
+		return w
 	case 0:
 		return rapid.SliceOfN(rapid.Byte(), 0, 64).Draw(t, "rand")
 	case 1:
@@ -1296,6 +1304,8 @@ var vfTextPieces = []string{
 	"1\n00:02:16,612 --> 00:02:19,376\nhi\n", "{\\rtf1", "a,b,c\n", "1\t2\t3\n", "#comment\n", "\"q,\"\"q\"", "WARC/1.0",
 	"\xef\xbb\xbf", "\xff\xfe", "\xfe\xff", "\xc3\xa9", "\xe2\x82\xac", "\x85", "\xa0", "\xff", "\x1b", "\x0c", "\x7f",
 	"PK\x03\x04", "%PDF-", "\x00", "\x01", "MZ", "BM", "GIF89a", "é", "日本",
+	// escape sequences of 7-bit encodings and terminals: ASCII text all the same
+	"\x1b$B", "\x1b(B", "\x1b$@", "\x1b(J", "\x1b$)C", "\x1b[0m", "\x1b[1;31m", "~{", "~}", "\x0e", "\x0f", "+AGE-", "+/v8-",
 }
 
 func vfGenTextish(t *rapid.T) string {
